@@ -345,8 +345,8 @@ def leakyMaxForm (slope : Rat) (x : D) : D :=
     ```
     m = K.max(tf.abs(x), axis=axis, keepdims=True)
     m = tf.where(m > 1.0, tf.ones_like(m), m)
-    f = tf.stop_gradient(2 * m)                           # repaired by 95def59 (was: f = 2 * m)
-    f = tf.where(f > 0.0, f, tf.ones_like(f))             # added by 0c3be6f (an all-zero group: x / 0 = NaN)
+    f = tf.stop_gradient(2 * m)                           # repaired by 7f3e140 (was: f = 2 * m)
+    f = tf.where(f > 0.0, f, tf.ones_like(f))             # added by c0623bb (an all-zero group: x / 0 = NaN)
     x = smart_cond(K.learning_phase(),
         lambda: f * _round_through(x / f, use_stochastic_rounding=True, precision=0.125),
         lambda: x)
@@ -370,7 +370,7 @@ def binSRTrainX (t : Tie) (f : D) (u : Rat) (x : D) : D :=
   D.mul g (D.roundThroughS t (binSRRnd u) (D.div x g))
 
 /-- the training carrier with the stop_gradient but WITHOUT the fall-back for a group of zeros (the code
-    between 95def59 and 0c3be6f) — NOT the code: in exact arithmetic `x / 0` is Lean's total division (0), in
+    between 7f3e140 and c0623bb) — NOT the code: in exact arithmetic `x / 0` is Lean's total division (0), in
     float32 it is NaN; either way the carrier is not straight-through there (`C06_binary_sr_zero_group_*`) -/
 def binSRTrainXNoFallback (t : Tie) (f : D) (u : Rat) (x : D) : D :=
   D.mul (D.sg f) (D.roundThroughS t (binSRRnd u) (D.div x (D.sg f)))
